@@ -71,10 +71,27 @@ def dtors(s, lw):
             if e == 'xv_rv': return '{ %s return xv_rv; }' % call
             return '{ %s xv_rv = (%s); %s return xv_rv; }' % (rt, e, call)
         inner = re.sub(r'\breturn\b([^;]*);', ret, inner)
-        s = s[:m.end()] + inner + ' ' + call + ' ' + s[i:]
+        s = s[:m.end()] + inner + ' ' + call + '\n' + s[i:]
         lw.fire('dtor')
-    # nested rewriting produces "{ T xv_rv = ({ ... }) }" never: inner returns were already turned into `return xv_rv;`
-    return s
+    # assert() is compiled out in release builds and never dereferences for the algorithm: address computations inside
+    # XV_XASSERT(...) use the unchecked address macro
+    out = []; i = 0
+    while True:
+        k = s.find('XV_XASSERT(', i)
+        if k < 0: out.append(s[i:]); break
+        p = s.index('(', k); d = 0; e = p
+        while True:
+            if s[e] == '(': d += 1
+            elif s[e] == ')':
+                d -= 1
+                if d == 0: break
+            e += 1
+        out.append(s[i:k]); out.append(re.sub(r'\b[GN]DEREF\(', 'NOCHK_DEREF(', s[k:e + 1])); i = e + 1
+    return ''.join(out)
+
+def FIND_SEQ(l):
+    # SEQ: the start can be marked once (restart from head), no other retry is possible, the walk visits <= L nodes + end
+    return ['hms_find.0:2', 'hms_find.1:1', 'hms_find.2:1', 'hms_find.3:1', 'hms_find.4:%d' % (l + 2)]
 
 COMMON = dict(py_pre=guard_rules, py_post=dtors,
               methods={'mark': {'info.cur': 'G_MARK', 'pos.info.cur': 'G_MARK', '*': 'MP_mark'},
@@ -108,7 +125,7 @@ UNIT = dict(
          post_subst=[(r'(?<![\w.>])info\b', '(*info_p)', 'info_ref')],
          must_fire={'A_LOAD': 4, 'A_CASW': 1, 'method:acquire_if_equal': 1, 'method:reclaim': 1, 'guard:copy_ctor': 1, 'guard:copy_assign': 1,
                     'guard:swap': 1, 'guard:bool': 1, 'guard:is_null': 1, 'guard:backoff_call': 1, 'call:compare': 2, 'dtor': 1, 'dtor_at_return': 2,
-                    'deref:info.cur': 5, 'deref:info.save': 1, 'reference': 1}),
+                    'deref:info.cur': 4, 'deref:info.save': 1, 'reference': 1}),
     dict(COMMON, id='contains', file=F, sig=r'bool ' + P + r'contains\(const Key& key\)',
          c_sig='static _Bool hms_contains(struct hms* self, hkey key)', ret_type='_Bool', members=['head'],
          must_fire={'self_call:find': 1, 'guard:find_info_ctor': 1, 'dtor': 1, 'dtor_at_return': 1}),
@@ -156,7 +173,18 @@ UNIT = dict(
          pre_subst=[(r'return \*this;', 'return;', 'ret_this')],
          must_fire={'A_LOAD': 1, 'method:acquire_if_equal': 1, 'method:find': 1, 'guard:default_ctor': 1, 'guard:move_assign': 2, 'subst:ret_this': 1, 'dtor': 1, 'dtor_at_return': 1}),
   ],
-  runs=[],
+  runs=[
+    dict(id='find', entry='h_find', cls='shape-complete', defs={'L': 3}, unwind=6, unwindset=FIND_SEQ(3), note='any well-formed list of <= 3 ever-inserted nodes; loops of find unwound completely (unwinding assertions)'),
+    dict(id='contains', entry='h_contains', cls='shape-complete', defs={'L': 3}, unwind=6, unwindset=FIND_SEQ(3)),
+    dict(id='find_key', entry='h_find_key', cls='shape-complete', defs={'L': 3}, unwind=6, unwindset=FIND_SEQ(3)),
+    dict(id='begin', entry='h_begin', cls='shape-complete', defs={'L': 3}, unwind=6),
+    dict(id='emplace_or_get', entry='h_emplace_or_get', cls='shape-complete', defs={'L': 3}, unwind=6, unwindset=FIND_SEQ(3) + ['hms_emplace_or_get.0:1']),
+    dict(id='emplace', entry='h_emplace', cls='shape-complete', defs={'L': 3}, unwind=6, unwindset=FIND_SEQ(3) + ['hms_emplace_or_get.0:1']),
+    dict(id='erase', entry='h_erase', cls='shape-complete', defs={'L': 3}, unwind=6, unwindset=FIND_SEQ(3) + ['hms_erase.0:1']),
+    dict(id='erase_it', entry='h_erase_it', cls='shape-complete', defs={'L': 3}, unwind=6, unwindset=FIND_SEQ(3) + ['hms_erase_it.0:2']),
+    dict(id='iter_inc', entry='h_iter_inc', cls='shape-complete', defs={'L': 3}, unwind=6, unwindset=FIND_SEQ(3)),
+    dict(id='iter_copy', entry='h_iter_copy', cls='shape-complete', defs={'L': 3}, unwind=6, unwindset=FIND_SEQ(3)),
+  ],
   obligations={},
   canaries=[],
 )
